@@ -629,7 +629,7 @@ func genItemOfKind(t *Tape, kind int) Item {
 func registerC10() {
 	hist := &Workload{
 		Name:  "histories",
-		Count: func(tier string) int { return map[string]int{"quick": 400, "thorough": 40000}[tier] },
+		Count: func(tier string) int { return map[string]int{"quick": 400, "thorough": 30000}[tier] },
 		Gen: func(i int, t *Tape, tier string) any {
 			c := &HistCase{Kind: "history"}
 			n := 3 + t.Draw(6)
